@@ -119,7 +119,15 @@ var plans = map[string]*plan{
 		Rule:  "case = generated (writers x chunk sizes, reader kind/buffer, buffer-limit knob, monitor, tee, ForceClose/endpoint faults) + seeded schedule; non-trivial = the run had >=2 tasks and >=1 context switch; distinct = distinct decision-trace hash (task label, yield site, #candidates per decision)",
 		Real:  []string{"builtins/pipes/streams (Stdin, Tee)", "lang/stdio templates (WriteTo)"},
 		Stub:  []string{"endpoint io.Reader/io.Writer arguments are harness objects (F-endpoint)"}},
+	"C04": {Quick: 4000, Thorough: 200000, ThoroughSeeds: 2, Batch: 125, Level: "exploration",
+		Rule: "case = generated chain (1-8 units of 1-3 piped `mk K exit` commands joined by ; newline && ||) + buffer-limit knob + seeded schedule(s); oracle = reference model of the statement (stdout markers, set of commands that ran, exit number); " + ruleTail,
+		Real: []string{"murex parser, interpreter (runModeNormal), process/fork model, streams"}},
+	"C05": {Quick: 4000, Thorough: 200000, ThoroughSeeds: 2, Batch: 125, Level: "exploration",
+		Rule: "case = generated chain inside try{} / trypipe{} / `runmode try|trypipe function` + buffer-limit knob + seeded schedule(s); oracle = reference model of the statement; " + ruleTail,
+		Real: []string{"murex parser, interpreter (runModeTry, runModeTryPipe, runmode compilation), process/fork model, streams"}},
 }
+
+const ruleTail = "non-trivial = the run had >=2 tasks and >=1 context switch; distinct = distinct decision-trace hash (task label, yield site, #candidates per decision)"
 
 // ---------------------------------------------------------------- known findings
 
@@ -970,6 +978,13 @@ func replay(path string) int {
 }
 
 func main() {
+	if len(os.Args) >= 2 && os.Args[1] == "warm" {
+		prepare(false, true)
+		cleanup()
+		prepare(true, false)
+		cleanup()
+		os.Exit(0)
+	}
 	if len(os.Args) < 3 {
 		fmt.Fprintln(os.Stderr, "usage: mxsim check <ID> [--tier quick|thorough] | mxsim replay <file>")
 		os.Exit(2)
